@@ -469,6 +469,9 @@ type vC06ProvSc struct {
 	Broadcast bool
 	Optim     bool
 	EstFactor float64 // optimistic: size of the phantom population used to warm up the estimator, relative to N
+	// SilentNearest > 0: the that many simulated peers nearest to the key never answer FIND_NODE (10 s read
+	// timeout each), so that with alpha = 1 the lookup lasts longer than a minute (unit optslow)
+	SilentNearest int
 }
 
 func vC06GenProv(c *vh.Case, optim bool) vC06ProvSc {
@@ -552,6 +555,19 @@ func vC06RunProvide(t *testing.T, c *vh.Case, sc vC06ProvSc) {
 			base := time.Duration(1+r.Intn(sc.MaxDelay)) * time.Millisecond
 			sp.Script = func(int, *pb.Message) vsim.Reply { return vsim.Reply{Delay: base} }
 			beh[p] = "ok/ok"
+		}
+		if sc.SilentNearest > 0 {
+			for _, p := range vsim.Nearest([]byte(key), n.IDs, sc.SilentNearest) {
+				sp := n.S.Peer(p)
+				sp.Dead = false
+				sp.Script = func(_ int, req *pb.Message) vsim.Reply {
+					if req != nil && req.GetType() == pb.Message_FIND_NODE {
+						return vsim.Reply{Silent: true}
+					}
+					return vsim.Reply{}
+				}
+				beh[p] = "silent/ok"
+			}
 		}
 		// warm the network-size estimator up with K-closest sets over a phantom population
 		m := int(float64(sc.Cfg.N) * sc.EstFactor)
@@ -754,6 +770,25 @@ func vC06RunProvide(t *testing.T, c *vh.Case, sc vC06ProvSc) {
 			}
 		} else {
 			c.Obs("lookup_longer_than_50s", 1)
+			if sc.SilentNearest > 0 && perr == nil && !cancelled {
+				// unit optslow: Provide returned success after a lookup of more than a minute; the property's delivery
+				// obligation does not depend on how long the lookup took
+				got, healthy := 0, 0
+				for _, p := range d.R {
+					if beh[p] == "ok/ok" {
+						healthy++
+						if len(n.S.Peer(p).GotProvs) >= 1 {
+							got++
+						}
+					}
+				}
+				if healthy > 0 {
+					c.Clause("delivery-after-long-lookup")
+					if got == 0 {
+						c.FailSig("delivery-after-long-lookup", "optimistic-put-context-expired-by-long-lookup", "optimistic Provide returned nil after a lookup of %v, but none of the %d healthy peers returned by the lookup received an ADD_PROVIDER (%d handed to the sender; first outcome: %s)", d.TermVT.Sub(start), healthy, tot, vC06FirstErr(log, key))
+					}
+				}
+			}
 		}
 		c.Check(len(missing) == 0, "optimistic-covers-closest", "peers returned by the lookup that were never sent ADD_PROVIDER: %v (R=%v, recipients %v, reason %s)", missing, n.Names(d.R), vC06Names(n, sends), d.Reason)
 		c.Check(len(strangers) == 0, "optimistic-only-learned", "ADD_PROVIDER sent to peers the lookup never learned: %v", strangers)
@@ -783,6 +818,40 @@ func TestVerif_C06_provide(t *testing.T) {
 		Clauses: []string{"local-provider-recorded", "local-provider-before-first-send", "add-provider-names-exactly-self", "add-provider-addresses-filtered", "add-provider-one-per-closest", "add-provider-only-to-closest", "nothing-sent-without-addresses", "no-announce-no-rpc", "healthy-recipient-got-record", "provide-despite-failures"}},
 		func(c *vh.Case) {
 			sc := vC06GenProv(c, false)
+			c.Bubble(t, 30*time.Minute, "provide-hang", func(t *testing.T) { vC06RunProvide(t, c, sc) })
+		})
+}
+
+// vC06FirstErr returns the error of the first ADD_PROVIDER for key that failed ("" if none).
+func vC06FirstErr(log []vsim.Event, key string) string {
+	for _, e := range log {
+		if e.Kind == vsim.EvReply && e.Type == pb.Message_ADD_PROVIDER && string(e.Key) == key && e.Err != "" {
+			return e.Err
+		}
+	}
+	return ""
+}
+
+// C06/optslow: optimistic provide after a lookup that lasts longer than a minute (the nearest peers are silent, alpha 1).
+func TestVerif_C06_optslow(t *testing.T) {
+	vh.Run(t, vh.Spec{Prop: "C06", Unit: "optslow", Quick: 40, Thorough: 1000, CostMs: 15,
+		Rule:    "optimistic Provide on full-knowledge networks of 30-80 peers, K in {3,5}, alpha 1, whose 8-11 peers nearest to the key never answer FIND_NODE (10 s read timeout each): the lookup lasts longer than a minute and returns healthy peers farther out; no store failures; oracle: if Provide returns nil, at least the healthy members of the returned set must RECEIVE the ADD_PROVIDER (not merely be handed to the sender); non-trivial = the lookup lasted > 60 s and returned >= 1 healthy peer; distinct by shape",
+		Clauses: []string{"delivery-after-long-lookup"}},
+		func(c *vh.Case) {
+			sc := vC06GenProv(c, true)
+			sc.Cfg.K = []int{3, 5}[c.R.Intn(2)]
+			sc.Cfg.A, sc.Cfg.B = 1, []int{1, 3}[c.R.Intn(2)]
+			sc.Cfg.N = 30 + c.R.Intn(50)
+			sc.Cfg.Knowledge = "full"
+			sc.Cfg.Seeds = sc.Cfg.K + 3
+			sc.FailFrac, sc.StoreFail, sc.CancelAt = 0, 0, 0
+			sc.MaxDelay = 50
+			sc.SilentNearest = 8 + c.R.Intn(4)
+			sc.EstFactor = 4 // thresholds never fire early: the lookup runs to its end
+			if len(sc.Addrs) == 0 {
+				sc.Addrs = []string{vC06AddrPool[0]}
+			}
+			sc.Filter = "nil"
 			c.Bubble(t, 30*time.Minute, "provide-hang", func(t *testing.T) { vC06RunProvide(t, c, sc) })
 		})
 }
